@@ -40,7 +40,7 @@ def coqc_eval(prop, name, body):
 
 
 HEAD = ("From Coq Require Import ZArith List Bool Floats Ascii String.\nImport ListNotations.\n"
-        "From PV Require Import Num model.Parse model.Geom eval.EvalLib.\nLocal Open Scope float_scope.\n")
+        "From PV Require Import Num model.Parse model.Geom eval.EvalLib.\nLocal Open Scope float_scope.\nSet Printing Width 1000000.\n")
 
 
 def geom_cases(shard, limit):
@@ -106,7 +106,7 @@ def run_geom(prop, shard, limit, ocaml_verdicts):
     if rc != 0:
         return dict(cases=len(cases), agree=0, problems=["coqc failed on the generated evaluation file: " + out[-600:]])
     flat = re.sub(r"\s+", " ", out)
-    got = re.findall(r"\((true|false), (true|false), (true|false), (true|false)\)", flat)
+    got = re.findall(r"\(\s*(true|false),\s*(true|false),\s*(true|false),\s*(true|false)\s*\)", flat)
     if len(got) != len(cases):
         return dict(cases=len(cases), agree=0, problems=["could not read %d results from coqc (%d found)" % (len(cases), len(got))])
     agree = 0
@@ -182,7 +182,7 @@ def run_pairs(prop, shard, limit, ocaml_verdicts):
     if rc != 0:
         return dict(cases=len(cases), agree=0, problems=["coqc failed on the generated evaluation file: " + out[-600:]])
     flat = re.sub(r"\s+", " ", out)
-    got = re.findall(r"\((true|false), (true|false), (true|false)\)", flat)
+    got = re.findall(r"\(\s*(true|false),\s*(true|false),\s*(true|false)\s*\)", flat)
     if len(got) != len(cases):
         return dict(cases=len(cases), agree=0, problems=["could not read %d results from coqc (%d found)" % (len(cases), len(got))])
     agree, problems = 0, []
